@@ -629,6 +629,51 @@ func main() {
 		_ = os.RemoveAll(wd)
 	}
 
+	// (E) work_dir ownership: a second validator on a live work_dir is rejected, its cleanup (Caddy
+	// cleans up modules whose Provision failed) must not release the owner's claim
+	for _, backend := range []string{"disk", "memory"} {
+		wd := filepath.Join(scratch, "wdE-"+backend)
+		_ = os.MkdirAll(wd, 0755)
+		opts := l2.Opts{WorkDir: wd, Storage: backend, SigMode: "verify", Fetch: "actively"}
+		desc := "work_dir ownership backend=" + backend
+		run.Eval(1)
+		a, err := l2.Start(opts)
+		if err != nil {
+			run.Violation("ownership.first-provision-failed."+backend, desc+": "+err.Error(), nil)
+			continue
+		}
+		ok := true
+		inflight := filepath.Join(wd, "crl_in-flight-download-of-the-owner_tmp")
+		_ = os.WriteFile(inflight, []byte("partial"), 0644)
+		for attempt := 1; attempt <= 3 && ok; attempt++ {
+			b, err := l2.Start(opts) // l2.Start runs Cleanup on the rejected checker, like Caddy
+			if err == nil {
+				ok = false
+				b.Stop()
+				run.Violation("ownership.second-validator-admitted-to-live-work_dir."+backend, fmt.Sprintf("%s: provisioning attempt %d on a work_dir that a live validator owns succeeded", desc, attempt), nil)
+			}
+			if _, e := os.Stat(inflight); e != nil {
+				ok = false
+				run.Violation("ownership.owners-temp-artefact-deleted-by-other-validator."+backend, fmt.Sprintf("%s: attempt %d removed a temporary artefact of the live owner", desc, attempt), nil)
+			}
+		}
+		_ = os.Remove(inflight)
+		if _, perr := a.Ask(w.Leaf(pki.NextSerial(), []string{w.CRL.URL("/e.crl")}, nil)); perr != nil && ok {
+			ok = false
+			run.Violation("ownership.owner-disturbed."+backend, desc+": the owner fails after rejected provisioning attempts: "+perr.Error(), nil)
+		}
+		a.Stop()
+		if c, err := l2.Start(opts); err != nil {
+			ok = false
+			run.Violation("ownership.work_dir-not-released-by-cleanup."+backend, desc+": "+err.Error(), nil)
+		} else {
+			c.Stop()
+		}
+		if ok {
+			run.NonTrivial(desc)
+		}
+	}
+
 	// (D) provision/cleanup cycles
 	cycles := 20
 	if run.Thorough() {
